@@ -142,6 +142,50 @@ def r4(ctx, rep):
               "otherwise `f x` and `f a:<default> x` differ, or an explicit named argument is ignored", file=f["file"], line=f["l"], fn=f["path"])
 
 
+def r7(ctx, rep):
+    # `let t = (..)` referenced twice = the pipeline written out twice: the second reference must still find the relation (a CTE, or the
+    # restored definition for an inline sub-query)
+    import C01
+    rep.borrowed(C01.r10, ctx, "C06.R7", "a let-bound relation referenced several times is, each time, the relation it was bound to")
+
+
+def r8(ctx, rep):
+    """Calling a user function is its body with the arguments substituted (beta-reduction): `let top = c -> max c` then `top x` is `max x`.
+    In `fold_function` the value of the call is what `materialize_function` returns; nothing but the span may be overridden on it,
+    otherwise `top x` and `max x` differ in a flag (needs_window, ty, alias ..) that later stages read."""
+    rep.rule("C06.R8", "a user-function call evaluates to its materialised body: only `span` is overridden on the way out of fold_function", floor=2)
+    syn = ctx.syn
+    f = syn.fn("Resolver::fold_function", crate="prqlc")
+    inits = {}
+    for n in walk(f["body"]):
+        if n.get("k") == "local" and n.get("init") is not None and n["pat"].get("k") == "p_ident":
+            inits.setdefault(n["pat"]["n"], []).append(n["init"])
+
+    def from_body(e, depth=0):
+        """does the value of `e` come (on some branch) from materialize_function?"""
+        from C02 import _value_leaves
+        for leaf in _value_leaves(e):
+            if any(x.get("k") == "mcall" and x["m"] == "materialize_function" for x in [leaf] + ([leaf["e"]] if leaf.get("k") == "try" else [])):
+                return True
+            if leaf.get("k") == "mcall" and leaf["m"] == "materialize_function":
+                return True
+            if depth < 3 and leaf.get("k") == "path" and leaf["p"] in inits and any(from_body(i_, depth + 1) for i_ in inits[leaf["p"]]):
+                return True
+            if leaf.get("k") == "struct" and leaf.get("rest") is not None and from_body(leaf["rest"], depth + 1):
+                return True
+        return False
+    n_sites = 0
+    calls_m = [x for x in walk(f["body"]) if x.get("k") == "mcall" and x["m"] == "materialize_function"]
+    for n in walk(f["body"]):
+        if n.get("k") == "struct" and n.get("rest") is not None and from_body(n["rest"]):
+            n_sites += 1
+            over = [a for a, _ in n["f"]]
+            rep.check(set(over) <= {"span"}, f"override:{'+'.join(over) or 'none'}", f"fold_function rebuilds the materialised body with {over} overridden (`{show(n, maxdepth=4)[:90]}`): "
+                      "the call no longer equals its body with the arguments substituted", file=f["file"], line=n["l"], fn=f["path"])
+    rep.check(len(calls_m) >= 1, "materialize-site", f"expected fold_function to materialise the closure (`self.materialize_function(..)`), found {len(calls_m)} call(s)", file=f["file"], line=f["l"], fn=f["path"])
+    rep.check(n_sites >= 1, "way-out", "expected the struct update that stamps the call's span on the materialised body", file=f["file"], line=f["l"], fn=f["path"])
+
+
 def run(ctx, rep):
-    for r in (r1, r2, r3, r4, r5, r6):
+    for r in (r1, r2, r3, r4, r5, r6, r7, r8):
         rep.guard(r, ctx)
